@@ -168,7 +168,8 @@ func c19CheckMessage(text string) (sig, msg string) {
 	if err := c19ParseExact([]byte(text), &orig); err != nil {
 		return "c19 harness", "bad generated message " + text
 	}
-	m, err := jsonrpc2.DecodeMessage([]byte(text))
+	wire := []byte(text)
+	m, err := jsonrpc2.DecodeMessage(wire)
 	if err != nil {
 		if strings.Contains(text, c19DecoyMark) {
 			return "", "" // a message with additional, wrongly-cased members may be refused; it must not be misread
@@ -185,6 +186,14 @@ func c19CheckMessage(text string) (sig, msg string) {
 	var back c19Wire
 	if err := c19ParseExact(enc, &back); err != nil {
 		return "c19 encode-garbage", fmt.Sprintf("EncodeMessage produced %q", enc)
+	}
+	// a decoded message is a value of its own: what happens to the bytes it was decoded from afterwards
+	// (a transport reading the next message into the same buffer) does not change it
+	for i := range wire {
+		wire[i] = '#'
+	}
+	if again, err := jsonrpc2.EncodeMessage(m); err != nil || !bytes.Equal(again, enc) {
+		return "c19 decoded-message-aliases-its-input", fmt.Sprintf("the message decoded from %s encodes as %s, and as %s (%v) once the input buffer has been reused", text, enc, again, err)
 	}
 	idClass := func(s string) string {
 		if strings.HasPrefix(s, `"`) {
@@ -673,9 +682,13 @@ func c19CheckContents(cases *verifx.Cases) {
 			return
 		}
 		var back CallToolResult
-		if err := json.Unmarshal(data, &back); err != nil {
+		wire := bytes.Clone(data)
+		if err := json.Unmarshal(wire, &back); err != nil {
 			cases.Violate(idx, "c19 content-unmarshal-failed "+name, fmt.Sprintf("%s: %v", data, err), 1)
 			return
+		}
+		for i := range wire {
+			wire[i] = '#' // the decoded value must not point into the bytes it was decoded from
 		}
 		if len(back.Content) != 1 || !c19ContentEqual(c, back.Content[0]) {
 			got, _ := json.Marshal(back.Content)
@@ -701,9 +714,13 @@ func c19CheckContents(cases *verifx.Cases) {
 			return
 		}
 		var back SamplingMessageV2
-		if err := json.Unmarshal(data, &back); err != nil {
+		wire := bytes.Clone(data)
+		if err := json.Unmarshal(wire, &back); err != nil {
 			cases.Violate(idx, "c19 content-unmarshal-failed "+name, fmt.Sprintf("%s: %v", data, err), 1)
 			return
+		}
+		for i := range wire {
+			wire[i] = '#'
 		}
 		if len(back.Content) != 1 || !c19ContentEqual(c, back.Content[0]) {
 			got, _ := json.Marshal(back.Content)
